@@ -82,7 +82,7 @@ pub trait Fl:
     + PartialOrd
     + std::fmt::Debug
     + std::fmt::Display
-    + num_traits::Float
+    + uom::num::Float
     + Conversion<Self, T = Self>
     + ConversionFactor<Self>
     + 'static
@@ -295,4 +295,186 @@ pub fn guarded<R>(f: impl FnOnce() -> R + std::panic::UnwindSafe) -> Option<R> {
 
 pub fn silence_panics() {
     std::panic::set_hook(Box::new(|_| {}));
+}
+
+// ------------------------------------------------------------------------------------------------
+// storage-type plumbing shared by the exact / operator drivers
+
+/// canonical text of a stored value or of a conversion factor
+pub trait Enc {
+    fn enc(&self) -> String;
+}
+
+impl Enc for f32 {
+    fn enc(&self) -> String {
+        Fl::hex(*self)
+    }
+}
+impl Enc for f64 {
+    fn enc(&self) -> String {
+        Fl::hex(*self)
+    }
+}
+impl Enc for bool {
+    fn enc(&self) -> String {
+        (if *self { "1" } else { "0" }).to_string()
+    }
+}
+impl Enc for Option<std::cmp::Ordering> {
+    fn enc(&self) -> String {
+        match self {
+            None => "none",
+            Some(std::cmp::Ordering::Less) => "lt",
+            Some(std::cmp::Ordering::Equal) => "eq",
+            Some(std::cmp::Ordering::Greater) => "gt",
+        }
+        .to_string()
+    }
+}
+impl Enc for std::cmp::Ordering {
+    fn enc(&self) -> String {
+        Some(*self).enc()
+    }
+}
+impl Enc for std::num::FpCategory {
+    fn enc(&self) -> String {
+        format!("{:?}", self).to_lowercase()
+    }
+}
+
+pub fn enc_opt<T: Enc>(x: &Option<T>) -> String {
+    match x {
+        Some(v) => v.enc(),
+        None => "PANIC".to_string(),
+    }
+}
+
+pub fn join_enc<T: Enc>(xs: &[T]) -> String {
+    xs.iter().map(|x| x.enc()).collect::<Vec<_>>().join(":")
+}
+
+/// a storage type under test
+pub trait Val: Clone + PartialEq + Enc + uom::num::Num + Conversion<Self> + std::panic::RefUnwindSafe + std::panic::UnwindSafe + 'static
+where
+    <Self as Conversion<Self>>::T: Enc,
+{
+    const NAME: &'static str;
+    /// value mixture: `k` indexes a fixed list of special values first, then seeded randoms
+    fn gen(rng: &mut Rng, k: usize) -> Self;
+}
+
+fn gen_float<V: Fl>(rng: &mut Rng, k: usize) -> V {
+    let specials = float_values::<V>(&mut Rng::new(0), 0, &[]);
+    if k < specials.len() {
+        specials[k]
+    } else {
+        float_values::<V>(rng, 1 + (k % 4), &[]).pop().unwrap()
+    }
+}
+
+impl Val for f32 {
+    const NAME: &'static str = "f32";
+    fn gen(rng: &mut Rng, k: usize) -> Self {
+        gen_float::<f32>(rng, k)
+    }
+}
+impl Val for f64 {
+    const NAME: &'static str = "f64";
+    fn gen(rng: &mut Rng, k: usize) -> Self {
+        gen_float::<f64>(rng, k)
+    }
+}
+
+#[cfg(feature = "wide-types")]
+pub mod widev {
+    use super::*;
+    use num_bigint::{BigInt, BigUint};
+    use num_rational::{BigRational, Ratio, Rational64};
+
+    macro_rules! prim_int {
+        ($($t:ident),*) => {$(
+            impl Enc for $t {
+                fn enc(&self) -> String { self.to_string() }
+            }
+            impl Enc for Ratio<$t> {
+                fn enc(&self) -> String { format!("{}/{}", self.numer(), self.denom()) }
+            }
+            impl Val for $t {
+                const NAME: &'static str = stringify!($t);
+                fn gen(rng: &mut Rng, k: usize) -> Self {
+                    let sp: [$t; 9] = [0, 1, 2, 7, 100, $t::MAX, $t::MAX - 1, $t::MIN, $t::MIN + 1];
+                    if k < sp.len() { return sp[k]; }
+                    match k % 3 {
+                        0 => rng.next() as $t,
+                        1 => (rng.next() % 2001) as i64 as $t,
+                        _ => ((rng.next() % 2001) as i64 - 1000) as $t,
+                    }
+                }
+            }
+        )*};
+    }
+    prim_int!(i32, i64, u32, u64, isize);
+
+    impl Enc for BigInt {
+        fn enc(&self) -> String {
+            self.to_string()
+        }
+    }
+    impl Enc for BigUint {
+        fn enc(&self) -> String {
+            self.to_string()
+        }
+    }
+    impl Enc for Ratio<BigInt> {
+        fn enc(&self) -> String {
+            format!("{}/{}", self.numer(), self.denom())
+        }
+    }
+    impl Enc for Ratio<BigUint> {
+        fn enc(&self) -> String {
+            format!("{}/{}", self.numer(), self.denom())
+        }
+    }
+
+    fn big(rng: &mut Rng, k: usize) -> BigInt {
+        let sp: [i64; 8] = [0, 1, -1, 2, 1000, -273, i64::MAX, i64::MIN];
+        if k < sp.len() {
+            return BigInt::from(sp[k]);
+        }
+        match k % 3 {
+            0 => BigInt::from(rng.next() as i64) * BigInt::from(rng.next()) * BigInt::from(rng.next() | 1),
+            1 => BigInt::from((rng.next() % 20001) as i64 - 10000),
+            _ => BigInt::from(rng.next() as i64),
+        }
+    }
+
+    impl Val for BigInt {
+        const NAME: &'static str = "bigint";
+        fn gen(rng: &mut Rng, k: usize) -> Self {
+            big(rng, k)
+        }
+    }
+    impl Val for BigUint {
+        const NAME: &'static str = "biguint";
+        fn gen(rng: &mut Rng, k: usize) -> Self {
+            big(rng, k).magnitude().clone()
+        }
+    }
+    impl Val for Rational64 {
+        const NAME: &'static str = "rational64";
+        fn gen(rng: &mut Rng, k: usize) -> Self {
+            let sp: [(i64, i64); 8] = [(0, 1), (1, 1), (-1, 1), (1, 2), (-7, 3), (1000, 1), (1, 1000), (355, 113)];
+            if k < sp.len() {
+                return Rational64::new(sp[k].0, sp[k].1);
+            }
+            Rational64::new((rng.next() % 2001) as i64 - 1000, (rng.next() % 999) as i64 + 1)
+        }
+    }
+    impl Val for BigRational {
+        const NAME: &'static str = "bigrational";
+        fn gen(rng: &mut Rng, k: usize) -> Self {
+            let d = big(rng, k + 3).magnitude().clone() + BigUint::from(1u32);
+            BigRational::new(big(rng, k), BigInt::from(d))
+        }
+    }
 }
